@@ -1,4 +1,5 @@
 import Frp.Lemmas.NatHole
+import Frp.Model.NatPunch
 /-
   C20 — NAT hole punching: authenticated, complementary instructions, bounded state.
 
@@ -20,7 +21,13 @@ import Frp.Lemmas.NatHole
      rank argument `sessions_deleted`; FULL progress `handler_never_stuck` (every stored session of
      every reachable state has an enabled handler step); pinned tree: `leak_witness`,
      `allow_users_not_checked_witness`
+     reports: enabled in every phase, frame (`report_frame`), FULL no-op clause for unknown /
+     not-yet-analysed / failed-analysis sids over all reachable states (`report_not_analysed_noop`)
   §7 soundness of the predicates the driver evaluates on the implementation's responses
+  §8 client side (Model/NatPunch.lean): waitDetectMessage over all inboxes (`wait_accepts_only`),
+     FULL "honest peers meet" step by step (`honest_peers_meet_steps`), key mismatch, and the
+     many-socket result hand-over: `handover_lost_witness` (current code, OPEN finding),
+     `handover_main_first_partial`, repaired: `handover_buffered_never_lost`
 -/
 namespace Frp
 namespace C20
@@ -118,6 +125,14 @@ def pairOk (sid : Str) (vm : VMsg) (cm : CMsg) (v c : Resp) : Bool :=
 def fullOk (sid : Str) (vm : VMsg) (cm : CMsg) (v c : Resp) : Bool :=
   errPairOk v c ||
   (instrOk sid vm cm v c && addrsValid vm.mapped && addrsValid cm.mapped && rangesOk v c)
+
+/-- `report`: what the driver demands of the implementation's own answer to a NatHoleReport.
+    `frameSame` = between the snapshots taken before and after `HandleReport` nothing differs but
+    the score list of the reported session's own analysis key (sessions, the lists of all other
+    keys, the number of keys); a session that is not analysed (or unknown) moreover has no score
+    list of its own.  A panic is judged by the engine before this predicate (prop=FAILS).
+    Model side: `report_frame`, `report_not_analysed_noop`. -/
+def reportOk (analysed ownScores frameSame : Bool) : Bool := frameSame && (analysed || !ownScores)
 
 /-! ## 3. Recommendations: all histories -/
 
@@ -1203,6 +1218,384 @@ theorem handler_never_stuck (ls : List Label) (s : State) (o : Out) (sid : Str) 
       | false => exact ⟨.sendC sid, rfl, hp.2.2.2.2 vr cr true hph hwf.1⟩
       | true => rcases hwf.2 with h | h <;> cases h
 
+/-! ### reports: enabled in every state, change nothing but one score list (all interleavings)
+
+  `HandleReport` runs on its own goroutine of whichever control sent the NatHoleReport; the sid is
+  known to the owner from the NatHoleSid notification on, i.e. before any analysis.  So a report
+  may meet its session in EVERY phase: `notifying`, `waiting` (no NatHoleClient analysed yet),
+  `responding` / `sleeping` after a successful analysis, `responding` / `sleeping` after a FAILED
+  analysis (error pair, the session is kept for the report window), or not at all. -/
+
+/-- the label is enabled in EVERY state, whatever phase the named session is in, stored or not
+    (the model is total; for the real code the nat engine turns a panic into prop=FAILS) -/
+theorem report_enabled (s : State) (sid : Str) (b : Bool) : (step s (.report sid b)).isSome = true := by
+  simp only [step]
+  split
+  · rfl
+  · split <;> rfl
+
+/-- a report sends nothing and changes neither the sessions (so no rank: it can neither finish nor
+    prolong a session) nor the registered proxies; in the analyzer only the score list stored under
+    the key of the reported session can differ -/
+theorem report_frame (s s' : State) (sid : Str) (b : Bool) (o : Out)
+    (h : step s (.report sid b) = some (s', o)) :
+    o = [] ∧ s'.sessions = s.sessions ∧ s'.cfgs = s.cfgs ∧ s'.nextChan = s.nextChan ∧
+    ∀ k, (∀ x, aget s.sessions sid = some x → x.key ≠ k) →
+      aget s'.analyzer.records k = aget s.analyzer.records k := by
+  simp only [step] at h
+  split at h
+  · cases h; exact ⟨rfl, rfl, rfl, rfl, fun _ _ => rfl⟩
+  · next sess hs =>
+    split at h
+    · cases h
+      refine ⟨rfl, rfl, rfl, rfl, fun k hk => ?_⟩
+      have hne := hk sess hs
+      simp only [analyzerReport]
+      split
+      · rfl
+      · simp only [aget_aput]
+        split
+        · next he => exact absurd he hne
+        · rfl
+    · cases h; exact ⟨rfl, rfl, rfl, rfl, fun _ _ => rfl⟩
+
+theorem report_no_leak (s s' : State) (sid sid' : Str) (b : Bool) (o : Out)
+    (h : step s (.report sid b) = some (s', o)) : rank s' sid' = rank s sid' := by
+  have hf := report_frame s s' sid b o h
+  simp only [rank, hf.2.1]
+
+/-- `Success == false` is a no-op -/
+theorem report_failure_noop (s : State) (sid : Str) : step s (.report sid false) = some (s, []) := by
+  simp only [step]
+  split
+  · rfl
+  · simp
+
+/-- `ReportSuccess` only ever changes a score: the (mode, index) rows of a list stay what they are -/
+theorem reportSuccess_rows (m i : Nat) : ∀ l : List Score,
+    (reportSuccess m i l).map (fun s => (s.mode, s.index)) = l.map (fun s => (s.mode, s.index)) := by
+  intro l
+  induction l with
+  | nil => rfl
+  | cons a r ih =>
+    simp only [reportSuccess]
+    split
+    · simp only [List.map_cons, ih]
+    · simp only [List.map_cons]
+
+/-- for a stored session a successful report rewrites exactly the score list of the session's key
+    by `ReportSuccess(mode, index)` (if that key has a list at all) -/
+theorem report_score_only (s s' : State) (sid : Str) (x : Session) (o : Out)
+    (hx : aget s.sessions sid = some x) (h : step s (.report sid true) = some (s', o)) :
+    aget s'.analyzer.records x.key = (aget s.analyzer.records x.key).map (reportSuccess x.mode x.index) := by
+  simp only [step, hx] at h
+  cases h
+  simp only [analyzerReport]
+  split
+  · next hn => simp only [hn, Option.map_none]
+  · next r hr => simp only [aget_aput, hr, Option.map_some]; simp
+
+theorem featStr_ne_nil (f : Feature) : featStr f ≠ [] := by
+  intro h
+  have hl : (featStr f).length = 0 := by rw [h]; rfl
+  simp only [featStr, List.length_append] at hl
+  have : (if f.regular = true then Str.ofString "true" else Str.ofString "false").length ≥ 4 := by
+    cases f.regular <;> decide +kernel
+  omega
+
+/-- the analysis key (what `genAnalysisKey` hashes) is never empty -/
+theorem analysisKey_ne_nil (vm : VMsg) (vf : Feature) (cm : CMsg) (cf : Feature) : analysisKey vm vf cm cf ≠ [] := by
+  intro h
+  simp only [analysisKey, List.append_eq_nil_iff] at h
+  exact featStr_ne_nil cf h.2
+
+/-- invariant of reachable states: the analyzer holds nothing under the empty key, and a session
+    carries an analysis key only once a SUCCESSFUL analysis ran for it: not while `notifying` or
+    `waiting`, and not after an analysis that failed (error pair) -/
+def NotAnalysed (x : Session) : Prop :=
+  x.phase = .waiting ∨ (∃ ch, x.phase = .notifying ch) ∨ (∃ vr cr v c, x.phase = .responding vr cr v c ∧ vr.error ≠ .none)
+
+def KInv (s : State) : Prop :=
+  aget s.analyzer.records [] = none ∧ ∀ sid x, aget s.sessions sid = some x → NotAnalysed x → x.key = []
+
+theorem kinv_init : KInv {} := ⟨rfl, by intro sid x h; simp [aget] at h⟩
+
+theorem kinv_sessions {s : State} (hk : KInv s) (sess : List (Str × Session)) (cf : List (Str × Cfg)) (n : Nat)
+    (h : ∀ sid x, aget sess sid = some x → NotAnalysed x → x.key = []) :
+    KInv { cfgs := cf, sessions := sess, analyzer := s.analyzer, nextChan := n } := ⟨hk.1, h⟩
+
+theorem kinv_put {s : State} (hk : KInv s) (k : Str) (x : Session)
+    (hx : NotAnalysed x → x.key = []) :
+    ∀ sid y, aget (aput s.sessions k x) sid = some y → NotAnalysed y → y.key = [] := by
+  intro sid y hy
+  simp only [aget_aput] at hy
+  split at hy
+  · cases hy; exact hx
+  · exact hk.2 sid y hy
+
+theorem kinv_del {s : State} (hk : KInv s) (k : Str) :
+    ∀ sid y, aget (adel s.sessions k) sid = some y → NotAnalysed y → y.key = [] := by
+  intro sid y hy
+  simp only [aget_adel] at hy
+  split at hy
+  · cases hy
+  · exact hk.2 sid y hy
+
+theorem getRecommand_empty_key (A : Analyzer) (key : Str) (c v : Feature) (hk : key ≠ [])
+    (h : aget A.records [] = none) : aget (getRecommand A key c v).1.records [] = none := by
+  simp only [getRecommand, aget_aput]
+  split
+  · next he => exact absurd he hk
+  · exact h
+
+theorem kinv_step (s s' : State) (l : Label) (o : Out) (hk : KInv s) (h : step s l = some (s', o)) : KInv s' := by
+  cases l <;> simp only [step] at h
+  case listen => split at h <;> cases h <;> exact hk
+  case close => cases h; exact hk
+  case precheck =>
+    split at h
+    · cases h; exact hk
+    · split at h <;> cases h <;> exact hk
+  case clean key =>
+    cases h
+    refine ⟨?_, hk.2⟩
+    simp only [analyzerForget, aget_adel]
+    split
+    · rfl
+    · exact hk.1
+  case report sid b =>
+    split at h
+    · cases h; exact hk
+    · next sess hs =>
+      split at h
+      · cases h
+        refine ⟨?_, hk.2⟩
+        simp only [analyzerReport]
+        split
+        · exact hk.1
+        · next r hr =>
+          simp only [aget_aput]
+          split
+          · next he => rw [he, hk.1] at hr; cases hr
+          · exact hk.1
+      · cases h; exact hk
+  case visitorLookup sid m t u =>
+    split at h
+    · cases h
+    · split at h
+      · cases h; exact hk
+      · split at h
+        · cases h; exact hk
+        · split at h
+          · cases h; exact hk
+          · cases h; exact kinv_sessions hk _ _ _ (kinv_put hk _ _ (fun _ => rfl))
+  case clientMsg m t =>
+    split at h
+    · cases h; exact hk
+    · next sess hsess =>
+      cases h
+      exact kinv_sessions hk _ _ _ (kinv_put hk _ _ (fun hn => (hk.2 _ sess hsess hn : sess.key = [])))
+  case notify sid =>
+    split at h
+    · next sess hsess =>
+      split at h
+      · next ch hp =>
+        split at h
+        · cases h
+          exact kinv_sessions hk _ _ _ (kinv_put hk _ _ (fun _ => (hk.2 _ sess hsess (Or.inr (Or.inl ⟨ch, hp⟩)) : sess.key = [])))
+        · cases h
+      · cases h
+    · cases h
+  case notifyTimeout sid =>
+    split at h
+    · split at h
+      · cases h; exact kinv_sessions hk _ _ _ (kinv_del hk _)
+      · cases h
+    · cases h
+  case wake sid =>
+    split at h
+    · next sess hsess =>
+      split at h
+      · next cm t hp hn hcm hct =>
+        split at h
+        · next A' oo ha =>
+          cases h
+          refine ⟨?_, kinv_put hk _ _ ?_⟩
+          · -- the analyzer after a successful analysis: the new key is not empty
+            simp only [analysis, analysisWith] at ha
+            split at ha
+            · cases ha
+            · split at ha
+              · cases ha
+              · simp only [Except.ok.injEq, Prod.mk.injEq] at ha
+                rw [← ha.1]
+                exact getRecommand_empty_key _ _ _ _ (analysisKey_ne_nil _ _ _ _) hk.1
+          · -- the session is analysed now: its responses carry no error
+            intro hna
+            exfalso
+            rcases hna with hw | ⟨ch, hc⟩ | ⟨vr, cr, v, c, hr, he⟩
+            · cases hw
+            · cases hc
+            · simp only [Phase.responding.injEq] at hr
+              simp only [analysis, analysisWith] at ha
+              split at ha
+              · cases ha
+              · split at ha
+                · cases ha
+                · simp only [Except.ok.injEq, Prod.mk.injEq] at ha
+                  apply he
+                  rw [← hr.1, ← ha.2]
+        · cases h
+          exact kinv_sessions hk _ _ _ (kinv_put hk _ _ (fun _ => (hk.2 _ sess hsess (Or.inl hp) : sess.key = [])))
+      · cases h
+    · cases h
+  case timeout sid =>
+    split at h
+    · split at h
+      · cases h; exact kinv_sessions hk _ _ _ (kinv_del hk _)
+      · cases h
+    · cases h
+  case sleepDone sid =>
+    split at h
+    · split at h
+      · cases h; exact kinv_sessions hk _ _ _ (kinv_del hk _)
+      · cases h
+    · cases h
+  case sendV sid =>
+    split at h
+    · next sess hsess =>
+      split at h
+      · next vr cr c hp =>
+        cases h
+        refine kinv_sessions hk _ _ _ (kinv_put hk _ _ ?_)
+        intro hna
+        have hkey : (finishSend sess vr cr true c).key = sess.key := by unfold finishSend; split <;> rfl
+        rw [hkey]
+        apply hk.2 _ _ hsess
+        refine Or.inr (Or.inr ⟨vr, cr, false, c, hp, ?_⟩)
+        rcases hna with hw | ⟨ch, hc⟩ | ⟨vr', cr', v', c', hr, he⟩
+        · unfold finishSend at hw; split at hw <;> cases hw
+        · unfold finishSend at hc; split at hc <;> cases hc
+        · unfold finishSend at hr
+          split at hr
+          · cases hr
+          · simp only [Phase.responding.injEq] at hr; rw [hr.1]; exact he
+      · cases h
+    · cases h
+  case sendC sid =>
+    split at h
+    · next sess hsess =>
+      split at h
+      · next vr cr v t hp ht =>
+        cases h
+        refine kinv_sessions hk _ _ _ (kinv_put hk _ _ ?_)
+        intro hna
+        have hkey : (finishSend sess vr cr v true).key = sess.key := by unfold finishSend; split <;> rfl
+        rw [hkey]
+        apply hk.2 _ _ hsess
+        refine Or.inr (Or.inr ⟨vr, cr, v, false, hp, ?_⟩)
+        rcases hna with hw | ⟨ch, hc⟩ | ⟨vr', cr', v', c', hr, he⟩
+        · unfold finishSend at hw; split at hw <;> cases hw
+        · unfold finishSend at hc; split at hc <;> cases hc
+        · unfold finishSend at hr
+          split at hr
+          · cases hr
+          · simp only [Phase.responding.injEq] at hr; rw [hr.1]; exact he
+      · cases h
+    · cases h
+
+theorem kinv_run : ∀ (ls : List Label) (s s' : State) (o : Out), KInv s → run s ls = some (s', o) → KInv s' := by
+  intro ls
+  induction ls with
+  | nil => intro s s' o hk h; simp only [run] at h; cases h; exact hk
+  | cons l ls ih =>
+    intro s s' o hk h
+    simp only [run] at h
+    split at h
+    · cases h
+    · next s1 o1 hstep =>
+      split at h
+      · cases h
+      · next s2 o2 hrun => cases h; exact ih s1 _ o2 (kinv_step s s1 l o1 hk hstep) hrun
+
+/-- FULL statement of the clause "a report with an unknown or not-yet-analysed sid is a no-op":
+    in every state reachable from the initial one by ANY label sequence (all interleavings of
+    visitor, client and report messages, duplicates included), a report — successful or not — that
+    names no stored session, or a session that is still `notifying` or `waiting`, or one whose
+    analysis failed, changes nothing and sends nothing -/
+theorem report_not_analysed_noop (ls : List Label) (s : State) (o : Out) (sid : Str) (b : Bool)
+    (hr : run {} ls = some (s, o))
+    (hx : ∀ x, aget s.sessions sid = some x → NotAnalysed x) :
+    step s (.report sid b) = some (s, []) := by
+  have hk := kinv_run ls {} s o kinv_init hr
+  simp only [step]
+  split
+  · rfl
+  · next sess hs =>
+    have hkey := hk.2 sid sess hs (hx sess hs)
+    split
+    · simp only [analyzerReport, hkey, hk.1]
+    · rfl
+
+/-- reports never disable anything and never create work: after ANY run, a report is enabled, and
+    afterwards every session has the rank it had (so `sessions_deleted` / `handler_never_stuck`
+    are indifferent to reports arriving at any point of the schedule) -/
+theorem run_snoc : ∀ (ls : List Label) (s s1 s2 : State) (o1 o2 : Out) (l : Label),
+    run s ls = some (s1, o1) → step s1 l = some (s2, o2) → run s (ls ++ [l]) = some (s2, o1 ++ o2) := by
+  intro ls
+  induction ls with
+  | nil => intro s s1 s2 o1 o2 l h hs; simp only [run] at h; cases h; simp [run, hs]
+  | cons a ls ih =>
+    intro s s1 s2 o1 o2 l h hs
+    simp only [run] at h
+    split at h
+    · cases h
+    · next sa oa hstep =>
+      split at h
+      · cases h
+      · next sb ob hrun =>
+        cases h
+        simp only [List.cons_append, run, hstep, ih sa _ s2 ob o2 l hrun hs, List.append_assoc]
+
+theorem report_any_time (ls : List Label) (s : State) (o : Out) (sid : Str) (b : Bool)
+    (hr : run {} ls = some (s, o)) :
+    ∃ s', run {} (ls ++ [.report sid b]) = some (s', o) ∧ s'.sessions = s.sessions ∧ s'.cfgs = s.cfgs := by
+  have he := report_enabled s sid b
+  cases hst : step s (.report sid b) with
+  | none => rw [hst] at he; cases he
+  | some r =>
+    obtain ⟨s', o'⟩ := r
+    have hf := report_frame s s' sid b o' hst
+    refine ⟨s', ?_, hf.2.1, hf.2.2.1⟩
+    have := run_snoc ls {} s s' o o' (.report sid b) hr hst
+    rw [this, hf.1, List.append_nil]
+
+/-- non-vacuity: a report meets a session in each of the not-analysed phases (before the notify,
+    between notify and NatHoleClient, after a failed analysis of a malformed client address) and
+    in the analysed one, where the score of the recommended row goes up -/
+def rV : VMsg := { tid := [118], proxyName := [112], signed := authInput [115] 7, timestamp := 7,
+                   mapped := [Str.ofString "1.2.3.4:80", Str.ofString "1.2.3.4:80"] }
+def rCok : CMsg := { tid := [99], sid := [1], mapped := [Str.ofString "9.9.9.9:80", Str.ofString "9.9.9.9:80"] }
+def rCbad : CMsg := { tid := [99], sid := [1], mapped := [Str.ofString "nocolon", Str.ofString "9.9.9.9:80"] }
+def rPre : List Label := [.listen [112] [115] [[Str.star]], .visitorLookup [1] rV 0 []]
+
+def reportTraces : List (List Label) :=
+  [ rPre ++ [.report [1] true, .notify [1], .report [1] true, .clientMsg rCok 1, .report [1] true],
+    rPre ++ [.notify [1], .clientMsg rCbad 1, .wake [1], .report [1] true, .sendV [1], .sendC [1], .report [1] true,
+             .report [2] true, .clientMsg rCbad 1, .clientMsg rCok 2, .report [1] false] ]
+
+def analyzerEmpty (ls : List Label) : Bool :=
+  match run {} ls with
+  | some (s, _) => s.analyzer.records.isEmpty && (aget s.sessions [1]).isSome
+  | none => false
+
+example : reportTraces.all analyzerEmpty = true := by decide +kernel
+
+example : (match run {} (rPre ++ [.notify [1], .clientMsg rCok 1, .wake [1], .report [1] true, .report [1] true]) with
+    | some (s, _) => (s.analyzer.records.map (fun p => p.2.map (·.score))) == [[3, 0, 0, 0, 0, 0, 0, 0, 0, 0]]
+    | none => false) = true := by decide +kernel
+
+
 /-! ### the pinned tree: the two session findings, kept as documentation (`stepOld`, `runOld`) -/
 
 /-- PINNED TREE (before 8d80cd3): a handler blocked in `clientCfg.sidCh <- sid` on a channel
@@ -1335,6 +1728,294 @@ theorem model_pairOk (A A' : Analyzer) (sid : Str) (vm : VMsg) (cm : CMsg) (o : 
     (hA : AInv A) (hsid : sid ≠ []) (h : analysis A sid vm cm = .ok (A', o)) :
     pairOk sid vm cm o.vResp o.cResp = true := by
   simp only [pairOk, (analysis_pair_ok A A' sid vm cm o hA hsid h).1, Bool.or_true]
+
+/-! ## 8. The client side of hole punching (nathole.go MakeHole / waitDetectMessage)
+
+  Model: Frp/Model/NatPunch.lean.  `honest_peers_meet` (§5) says the sender's candidate list
+  contains every address the receiver reported; here the two `MakeHole` runs themselves are
+  followed step by step. -/
+section Punch
+open NatPunch
+
+/-- datagrams the wait loop must pass over -/
+def Harmless (role : Role) (sid : Str) (l : List (Str × Dgram)) : Prop :=
+  ∀ p ∈ l, waitOne role sid p.2 = .skip
+
+theorem waitLoop_skips (role : Role) (sid : Str) : ∀ (l rest : List (Str × Dgram)),
+    Harmless role sid l → waitLoop role sid (l ++ rest) = waitLoop role sid rest := by
+  intro l
+  induction l with
+  | nil => intro rest _; rfl
+  | cons p l ih =>
+    intro rest h
+    obtain ⟨src, d⟩ := p
+    have hp : waitOne role sid d = .skip := h (src, d) List.mem_cons_self
+    simp only [List.cons_append, waitLoop, hp]
+    exact ih rest (fun q hq => h q (List.mem_cons_of_mem _ hq))
+
+/-- undecodable datagrams, messages of other sessions and — for a sender — non-response messages
+    are harmless: exactly the three `continue`s of `waitDetectMessage` -/
+theorem harmless_iff (role : Role) (sid : Str) (d : Dgram) :
+    waitOne role sid d = .skip ↔
+      (d = .junk ∨ (∃ s r, d = .sid s r ∧ s ≠ sid) ∨ (role = .sender ∧ d = .sid sid false)) := by
+  cases d with
+  | junk => simp [waitOne]
+  | sid s r =>
+    simp only [waitOne]
+    by_cases hs : s = sid
+    · subst hs
+      cases r <;> by_cases hr : role = .sender <;> simp [hr]
+    · simp [hs]
+
+/-- ALL inboxes (any senders, any order, any noise): `waitDetectMessage` returns only on a
+    NatHoleSid that decoded with our key and carries OUR sid; a sender only on a response; and the
+    party answers (Response = true) exactly when what it accepted was not a response -/
+theorem wait_accepts_only (role : Role) (sid : Str) : ∀ (inbox : List (Str × Dgram)) (a : Str) (b : Bool),
+    waitLoop role sid inbox = some (a, b) →
+    ∃ resp, (a, Dgram.sid sid resp) ∈ inbox ∧ (role = .sender → resp = true) ∧ b = !resp := by
+  intro inbox
+  induction inbox with
+  | nil => intro a b h; simp [waitLoop] at h
+  | cons p l ih =>
+    intro a b h
+    obtain ⟨src, d⟩ := p
+    simp only [waitLoop] at h
+    split at h
+    · obtain ⟨resp, hm, h1, h2⟩ := ih a b h
+      exact ⟨resp, List.mem_cons_of_mem _ hm, h1, h2⟩
+    · next hw =>
+      simp only [Option.some.injEq, Prod.mk.injEq] at h
+      obtain ⟨rfl, rfl⟩ := h
+      cases d with
+      | junk => simp [waitOne] at hw
+      | sid s r =>
+        simp only [waitOne] at hw
+        split at hw
+        · cases hw
+        · next hs =>
+          simp only [ne_eq, Decidable.not_not] at hs
+          subst hs
+          cases r with
+          | false =>
+            refine ⟨false, List.mem_cons_self, ?_, rfl⟩
+            intro hr; simp [hr] at hw
+          | true => simp at hw
+    · next hw =>
+      simp only [Option.some.injEq, Prod.mk.injEq] at h
+      obtain ⟨rfl, rfl⟩ := h
+      cases d with
+      | junk => simp [waitOne] at hw
+      | sid s r =>
+        simp only [waitOne] at hw
+        split at hw
+        · cases hw
+        · next hs =>
+          simp only [ne_eq, Decidable.not_not] at hs
+          subst hs
+          cases r with
+          | false => by_cases hr : role = .sender <;> simp [hr] at hw
+          | true => exact ⟨true, List.mem_cons_self, fun _ => rfl, rfl⟩
+
+/-- the sender probes every address the receiver reported (so, on an unfiltered network, the
+    address the receiver really listens on) -/
+theorem sender_probes_reported (r : Resp) (a : Str) (hr : r.role = .sender) (ha : a ∈ r.candidateAddrs) :
+    (probes r).contains a = true := by
+  simp only [List.contains_iff_mem, probes, detectAddrs, hr, if_true, List.mem_append]
+  left
+  exact (mem_compact a _).mpr (List.mem_append_right _ ha)
+
+theorem meet_oriented (sid : Str) (s r : Resp) (aS aR : Str) (nS nR : List (Str × Dgram))
+    (hs : s.role = .sender) (hr : r.role = .receiver) (hss : s.sid = sid) (hrs : r.sid = sid)
+    (hp : (probes s).contains aR = true)
+    (hnS : Harmless .sender sid nS) (hnR : Harmless .receiver sid nR) :
+    outcome true { resp := s, addr := aS, noise := nS } { resp := r, addr := aR, noise := nR } = some aR ∧
+    outcome true { resp := r, addr := aR, noise := nR } { resp := s, addr := aS, noise := nS } = some aS := by
+  have hearly : early true { resp := r, addr := aR, noise := nR } { resp := s, addr := aS, noise := nS } = some (aS, true) := by
+    simp only [early, probeFrom, hp, if_true, hr, hrs, hss, recode, Bool.and_self]
+    rw [waitLoop_skips _ _ _ _ hnR]
+    simp [waitLoop, waitOne]
+  constructor
+  · simp only [outcome, replyFrom, hearly, if_true, hs, hss, hrs, recode, Bool.and_self]
+    rw [List.append_assoc, waitLoop_skips _ _ _ _ hnS]
+    have hpr : Harmless .sender sid (probeFrom true { resp := s, addr := aS, noise := nS } { resp := r, addr := aR, noise := nR }) := by
+      intro p hp'
+      simp only [probeFrom, recode, Bool.and_self, if_true, hrs] at hp'
+      split at hp'
+      · simp only [List.mem_singleton] at hp'; subst hp'; simp [waitOne]
+      · cases hp'
+    rw [waitLoop_skips _ _ _ _ hpr]
+    simp [waitLoop, waitOne]
+  · simp only [outcome, probeFrom, hp, if_true, hr, hrs, hss, recode, Bool.and_self]
+    rw [List.append_assoc, waitLoop_skips _ _ _ _ hnR]
+    simp [waitLoop, waitOne]
+
+/-- FULL statement of "two honest peers on an unfiltered network that follow the instructions do
+    find each other": for every pair of instructions that satisfies `instrOk` (every successful
+    analysis does: `analysis_pair_ok`), parties bound at addresses they reported, holding the same
+    key, with ANY harmless noise arriving first at either socket: both `MakeHole` runs return, each
+    with the other party's address -/
+theorem honest_peers_meet_steps (sid : Str) (vm : VMsg) (cm : CMsg) (v c : Resp) (aV aC : Str)
+    (nV nC : List (Str × Dgram))
+    (h : instrOk sid vm cm v c = true) (hV : aV ∈ vm.mapped) (hC : aC ∈ cm.mapped)
+    (hnV : Harmless v.role sid nV) (hnC : Harmless c.role sid nC) :
+    outcome true { resp := v, addr := aV, noise := nV } { resp := c, addr := aC, noise := nC } = some aC ∧
+    outcome true { resp := c, addr := aC, noise := nC } { resp := v, addr := aV, noise := nV } = some aV := by
+  have h' := h
+  simp only [instrOk, Bool.and_eq_true, beq_iff_eq, roleCompl, Bool.or_eq_true] at h'
+  obtain ⟨⟨⟨⟨⟨⟨⟨⟨⟨⟨⟨⟨⟨⟨_, _⟩, _⟩, hvs⟩, hcs⟩, _⟩, hrole⟩, hvc⟩, hcc⟩, _⟩, _⟩, _⟩, _⟩, _⟩, _⟩ := h'
+  rcases hrole with hr | hr
+  · rw [hr.1] at hnV; rw [hr.2] at hnC
+    exact meet_oriented sid v c aV aC nV nC hr.1 hr.2 hvs hcs
+      (sender_probes_reported v aC hr.1 (by rw [hvc]; exact (mem_compact aC _).mpr hC)) hnV hnC
+  · rw [hr.1] at hnV; rw [hr.2] at hnC
+    have := meet_oriented sid c v aC aV nC nV hr.2 hr.1 hcs hvs
+      (sender_probes_reported c aV hr.2 (by rw [hcc]; exact (mem_compact aV _).mpr hV)) hnC hnV
+    exact ⟨this.2, this.1⟩
+
+/-- with different secret keys nobody ever returns (every datagram of the peer is junk) -/
+theorem key_mismatch_never_meets (x y : Party) (hx : Harmless x.resp.role x.resp.sid x.noise) :
+    outcome false x y = none := by
+  have hp : Harmless x.resp.role x.resp.sid (probeFrom false x y) := by
+    intro p hp'
+    simp only [probeFrom, recode, Bool.false_and] at hp'
+    split at hp'
+    · simp only [List.mem_singleton] at hp'; subst hp'; simp [waitOne]
+    · cases hp'
+  have hr : Harmless x.resp.role x.resp.sid (replyFrom false x y) := by
+    intro p hp'
+    simp only [replyFrom, recode, Bool.false_and] at hp'
+    split at hp'
+    · split at hp'
+      · simp only [List.mem_singleton] at hp'; subst hp'; simp [waitOne]
+      · cases hp'
+    · cases hp'
+  simp only [outcome]
+  rw [List.append_assoc, waitLoop_skips _ _ _ _ hx, waitLoop_skips _ _ _ _ hp]
+  have : waitLoop x.resp.role x.resp.sid (replyFrom false x y ++ []) = waitLoop x.resp.role x.resp.sid [] :=
+    waitLoop_skips _ _ _ _ hr
+  rw [List.append_nil] at this
+  rw [this]; rfl
+
+/-! ### the hand-over of a socket's result in the many-socket modes (2 and 4)
+
+  `honest_peers_meet_steps` follows the messages; with ListenRandomPorts > 0 the receiver's
+  `MakeHole` additionally has to take the result from the goroutine of the socket that was reached.
+  On the current tree that hand-over can be LOST (KNOWN_FINDINGS C20-makehole-lost-result): -/
+
+/-- WITNESS (current code, unbuffered channel): the goroutine of socket 0 accepts the sender's probe
+    and answers it — so the sender's MakeHole returns successfully — before the caller waits on
+    resultCh: the result is dropped, the socket closed, and the receiver's MakeHole returns nothing
+    (it ends in "wait detect message timeout") although the two parties did exchange messages -/
+theorem handover_lost_witness :
+    (hrun false [.deliver 0, .mainWaits]).result = none ∧
+    (hrun false [.deliver 0, .mainWaits]).answered = [0] ∧
+    (hrun false [.deliver 0, .mainWaits]).closed = [0] := by decide
+
+theorem hresult_mono (b : Bool) : ∀ (ls : List HLabel) (s : HState), s.result.isSome = true →
+    (ls.foldl (hstep b) s).result.isSome = true := by
+  intro ls
+  induction ls with
+  | nil => intro s h; exact h
+  | cons l ls ih =>
+    intro s h
+    apply ih
+    obtain ⟨mw, slot, result, answered, closed⟩ := s
+    cases result with
+    | none => cases h
+    | some r => cases l <;> cases mw <;> cases slot <;> cases b <;> simp [hstep]
+
+theorem hmain_mono (b : Bool) : ∀ (ls : List HLabel) (s : HState), s.mainWaiting = true →
+    (ls.foldl (hstep b) s).mainWaiting = true := by
+  intro ls
+  induction ls with
+  | nil => intro s h; exact h
+  | cons l ls ih =>
+    intro s h
+    apply ih
+    obtain ⟨mw, slot, result, answered, closed⟩ := s
+    simp only at h; subst h
+    cases l <;> cases slot <;> cases result <;> cases b <;> simp [hstep]
+
+theorem hanswered_mono (b : Bool) : ∀ (ls : List HLabel) (s : HState), s.answered ≠ [] →
+    (ls.foldl (hstep b) s).answered ≠ [] := by
+  intro ls
+  induction ls with
+  | nil => intro s h; exact h
+  | cons l ls ih =>
+    intro s h
+    apply ih
+    obtain ⟨mw, slot, result, answered, closed⟩ := s
+    cases l <;> cases mw <;> cases slot <;> cases result <;> cases b <;> simp_all [hstep]
+
+/-- PARTIAL (current code): if the caller reaches its select before any socket delivers, the first
+    delivery is taken and MakeHole returns it -/
+theorem handover_main_first_partial (c : Nat) (rest : List HLabel) :
+    (hrun false (.mainWaits :: .deliver c :: rest)).result.isSome = true := by
+  simp only [hrun, List.foldl_cons]
+  apply hresult_mono
+  simp [hstep]
+
+/-- invariant of the REPAIRED hand-over (`make(chan result, 1)`): a buffered result is still
+    untaken and the caller not yet waiting; once a socket answered, its result is buffered or taken -/
+def HInv (s : HState) : Prop :=
+  (s.slot.isSome = true → s.result = none ∧ s.mainWaiting = false) ∧
+  (s.answered ≠ [] → s.slot.isSome = true ∨ s.result.isSome = true)
+
+theorem hinv_step (s : HState) (l : HLabel) (h : HInv s) : HInv (hstep true s l) := by
+  obtain ⟨mw, slot, result, answered, closed⟩ := s
+  cases l <;> cases mw <;> cases slot <;> cases result <;> simp_all [HInv, hstep]
+
+theorem hinv_run : ∀ (ls : List HLabel) (s : HState), HInv s → HInv (ls.foldl (hstep true) s) := by
+  intro ls
+  induction ls with
+  | nil => intro s h; exact h
+  | cons l ls ih => intro s h; exact ih _ (hinv_step s l h)
+
+/-- FULL statement for the repaired hand-over, ALL schedules: whenever some socket accepted and
+    answered a message and the caller has reached its select — in any order, any number of sockets
+    delivering — MakeHole returns a result -/
+theorem handover_buffered_never_lost (ls : List HLabel) (hm : HLabel.mainWaits ∈ ls)
+    (hd : ∃ c, HLabel.deliver c ∈ ls) : (hrun true ls).result.isSome = true := by
+  have hi : HInv (hrun true ls) := hinv_run ls {} (by simp [HInv])
+  have hmw : (hrun true ls).mainWaiting = true := by
+    unfold hrun
+    suffices h : ∀ (ls : List HLabel) (s : HState), HLabel.mainWaits ∈ ls → (ls.foldl (hstep true) s).mainWaiting = true from h ls {} hm
+    intro ls
+    induction ls with
+    | nil => intro s h; cases h
+    | cons l ls ih =>
+      intro s h
+      rcases List.mem_cons.mp h with h | h
+      · subst h
+        simp only [List.foldl_cons]
+        apply hmain_mono
+        obtain ⟨mw, slot, result, answered, closed⟩ := s
+        cases slot <;> cases result <;> simp [hstep]
+      · simp only [List.foldl_cons]; exact ih _ h
+  have han : (hrun true ls).answered ≠ [] := by
+    obtain ⟨c, hc⟩ := hd
+    unfold hrun
+    suffices h : ∀ (ls : List HLabel) (s : HState), HLabel.deliver c ∈ ls → (ls.foldl (hstep true) s).answered ≠ [] from h ls {} hc
+    intro ls
+    induction ls with
+    | nil => intro s h; cases h
+    | cons l ls ih =>
+      intro s h
+      rcases List.mem_cons.mp h with h | h
+      · subst h
+        simp only [List.foldl_cons]
+        apply hanswered_mono
+        obtain ⟨mw, slot, result, answered, closed⟩ := s
+        cases mw <;> cases slot <;> cases result <;> simp [hstep]
+      · simp only [List.foldl_cons]; exact ih _ h
+  rcases hi.2 han with h | h
+  · have := (hi.1 h).2; rw [hmw] at this; cases this
+  · exact h
+
+/-- … and the repaired hand-over on the witness schedule -/
+example : (hrun true [.deliver 0, .mainWaits]).result = some 0 := by decide
+
+end Punch
 
 end C20
 end Frp
